@@ -93,6 +93,12 @@ fn eq_mag(kind: EqFilterKind, fc: f64, gain_db: f64, q: f64, f: f64, sr: f64) ->
 
 /// gain of the effect at frequency f measured with a sine (single-bin correlation over whole periods)
 fn measure_gain(spec: &FxSpec, sr: u32, f: f64) -> f64 {
+	measure_gain_after(spec, sr, f, None)
+}
+
+/// `prior`: the same effect instance has first run at that device rate; the device then changed
+/// to `sr` ("at any sample rate" includes the rate the device has now)
+fn measure_gain_after(spec: &FxSpec, sr: u32, f: f64, prior: Option<u32>) -> f64 {
 	// the transient of a resonance of quality Q dies as exp(-pi f t / Q): wait 3 Q periods (at least 30)
 	let q_pole = match spec {
 		FxSpec::Filter { resonance, .. } => 1.0 / (2.0 - 1.9 * resonance.clamp(0.0, 1.0)),
@@ -109,7 +115,17 @@ fn measure_gain(spec: &FxSpec, sr: u32, f: f64) -> f64 {
 	let measure = (periods * per).round() as usize;
 	let n = settle + measure;
 	let input: Vec<Frame> = (0..n).map(|i| Frame::from_mono(0.25 * (2.0 * PI * f * i as f64 / sr as f64).sin() as f32)).collect();
-	let out = run_effect(spec, sr, 512, &input, &whole(n, 512), &info);
+	let out = match prior {
+		None => run_effect(spec, sr, 512, &input, &whole(n, 512), &info),
+		Some(r0) => {
+			let (mut fx, _h) = crate::scene::fx::build(spec);
+			fx.init(r0, 512);
+			let warm: Vec<Frame> = (0..1536).map(|i| Frame::from_mono(0.25 * (2.0 * PI * f * i as f64 / r0 as f64).sin() as f32)).collect();
+			let _ = super::c13::process_with(&mut fx, r0, &warm, &whole(1536, 512), &info);
+			fx.on_change_sample_rate(sr);
+			super::c13::process_with(&mut fx, sr, &input, &whole(n, 512), &info)
+		}
+	};
 	let corr = |x: &[Frame]| {
 		let (mut s, mut c) = (0.0f64, 0.0f64);
 		for (j, fr) in x.iter().enumerate() {
@@ -142,8 +158,8 @@ enum Inner {
 
 #[derive(Debug, Clone)]
 enum Case {
-	Filter { sr: u32, mode: FilterMode, cutoff: f64, resonance: f64, probe: f64 },
-	Eq { sr: u32, kind: EqFilterKind, frequency: f64, gain_db: f32, q: f64, probe: f64 },
+	Filter { sr: u32, mode: FilterMode, cutoff: f64, resonance: f64, probe: f64, prior: Option<u32> },
+	Eq { sr: u32, kind: EqFilterKind, frequency: f64, gain_db: f32, q: f64, probe: f64, prior: Option<u32> },
 	Delay { sr: u32, ibs: usize, time_s: f64, feedback_db: f32, mix: f32, inner: Vec<Inner>, n: usize, amp: f32 },
 	Reverb { sr: u32, feedback: f64, damping: f64, width: f64, mix: f32, n: usize },
 	Compressor { sr: u32, threshold: f64, ratio: f64, attack_s: f64, release_s: f64, level_db: f64 },
@@ -186,18 +202,18 @@ fn inner_apply(i: &Inner, x: f64) -> f64 {
 fn run_one(c: &Case) -> Result<(), Failure> {
 	let info = MockInfoBuilder::new().build();
 	match c {
-		Case::Filter { sr, mode, cutoff, resonance, probe } => {
+		Case::Filter { sr, mode, cutoff, resonance, probe, prior } => {
 			let spec = FxSpec::Filter { mode: *mode, cutoff: *cutoff, resonance: *resonance, mix: 1.0 };
 			let k = 2.0 - 1.9 * resonance.clamp(0.0, 1.0);
 			let want = filter_mag(*mode, *cutoff, k, *probe, *sr as f64);
-			let got = measure_gain(&spec, *sr, *probe);
+			let got = measure_gain_after(&spec, *sr, *probe, *prior);
 			// deep notches / stop bands are compared in linear terms
 			let ok = (db(got) - db(want)).abs() <= low_corner_tol(*cutoff, *sr) || (got - want).abs() <= 2e-3;
-			ensure!(ok, "filter-frequency-response", "{mode:?} filter, corner {cutoff:.2} Hz, resonance {resonance:.3}, at {sr} Hz: gain at {probe:.2} Hz measured {:.3} dB, the cited state-variable design gives {:.3} dB", db(got), db(want));
+			ensure!(ok, "filter-frequency-response", "{mode:?} filter, corner {cutoff:.2} Hz, resonance {resonance:.3}, at {sr} Hz (device rate before: {prior:?}): gain at {probe:.2} Hz measured {:.3} dB, the cited state-variable design gives {:.3} dB", db(got), db(want));
 			// landmarks of the design
 			let nyq = *sr as f64 / 2.0;
 			if *cutoff < nyq * 0.4 && *cutoff > 20.0 {
-				let at_corner = measure_gain(&spec, *sr, *cutoff);
+				let at_corner = measure_gain_after(&spec, *sr, *cutoff, *prior);
 				let want_c = match mode {
 					FilterMode::Notch => 0.0,
 					_ => 1.0 / k,
@@ -205,11 +221,11 @@ fn run_one(c: &Case) -> Result<(), Failure> {
 				ensure!((at_corner - want_c).abs() <= 0.02 * want_c.max(0.05), "filter-corner-at-requested-frequency", "{mode:?} filter: gain at its {cutoff:.2} Hz corner is {at_corner:.4}, expected {want_c:.4} (1/k, k = {k:.3}) at {sr} Hz");
 			}
 		}
-		Case::Eq { sr, kind, frequency, gain_db, q, probe } => {
+		Case::Eq { sr, kind, frequency, gain_db, q, probe, prior } => {
 			let spec = FxSpec::Eq { kind: *kind, frequency: *frequency, gain_db: *gain_db, q: *q };
 			let want = eq_mag(*kind, *frequency, *gain_db as f64, *q, *probe, *sr as f64);
-			let got = measure_gain(&spec, *sr, *probe);
-			ensure!((db(got) - db(want)).abs() <= low_corner_tol(*frequency, *sr), "eq-frequency-response", "{kind:?} EQ, {frequency:.2} Hz, {gain_db:.2} dB, q {q:.3}, at {sr} Hz: gain at {probe:.2} Hz measured {:.3} dB, the cited design gives {:.3} dB", db(got), db(want));
+			let got = measure_gain_after(&spec, *sr, *probe, *prior);
+			ensure!((db(got) - db(want)).abs() <= low_corner_tol(*frequency, *sr), "eq-frequency-response", "{kind:?} EQ, {frequency:.2} Hz, {gain_db:.2} dB, q {q:.3}, at {sr} Hz (device rate before: {prior:?}): gain at {probe:.2} Hz measured {:.3} dB, the cited design gives {:.3} dB", db(got), db(want));
 			let nyq = *sr as f64 / 2.0;
 			if *frequency < nyq * 0.2 && *frequency > 100.0 {
 				match kind {
@@ -466,6 +482,7 @@ fn decode(src: &mut Src, tier: Tier) -> Case {
 				cutoff,
 				resonance: src.f64_in(0.0, 1.0),
 				probe,
+				prior: if src.chance(1, 4) { Some(src.pick(&[48000u32, 8000, 44100, 96000, 22050])) } else { None },
 			}
 		}
 		1 => {
@@ -478,6 +495,7 @@ fn decode(src: &mut Src, tier: Tier) -> Case {
 				gain_db: src.f32_in(-24.0, 24.0),
 				q: src.f64_log(0.1, 10.0),
 				probe,
+				prior: if src.chance(1, 4) { Some(src.pick(&[48000u32, 8000, 44100, 96000, 22050])) } else { None },
 			}
 		}
 		2 => Case::FilterSamples {
@@ -552,7 +570,7 @@ impl Property for C14 {
 		"C14"
 	}
 	fn rule(&self) -> &'static str {
-		"each case builds one effect through its public builder with generated parameters and a sample rate 8k..192k and compares it with an independent reference: filter (4 modes) and EQ (3 kinds): sine gain measured at a probe frequency within two octaves of the corner against the analytic magnitude of the cited state-variable design (0.1 dB + 5e-4/g dB, g = tan(pi corner / rate)), corner / centre / shelf landmarks, and sample-by-sample agreement of the filter with an f64 implementation of the cited algorithm on noise; delay: impulse trains against a reference delay line with floor(time x rate) frames, feedback gain applied once per round trip after the feedback effects (volume, hard / soft clip), sqrt mix law (1e-5 per frame); reverb: sample-by-sample against an f64 Freeverb network (8 combs + 4 all-passes per channel, tunings x rate/44100, spread 23, input gain 0.015) and a decaying tail for feedback < 1; compressor: unchanged below threshold, steady-state reduction (level - threshold)(1 - 1/ratio) dB (0.05 dB) and 63.2% of it after the attack time (2%); distortion: clamp(x d)/d and x d/(1+|x d|)/d, transparent for small signals; volume / panning control: decibel and equal-power laws. Non-trivial = parameters differ from the builder defaults (always, by generation) and the probe lies within two octaves of the corner; distinct = distinct decoded choices."
+		"each case builds one effect through its public builder with generated parameters and a sample rate 8k..192k and compares it with an independent reference: filter (4 modes) and EQ (3 kinds): sine gain measured at a probe frequency within two octaves of the corner against the analytic magnitude of the cited state-variable design (0.1 dB + 5e-4/g dB, g = tan(pi corner / rate)), corner / centre / shelf landmarks - in a quarter of the cases on an effect instance that first ran at another device rate and was then told the new one -, and sample-by-sample agreement of the filter with an f64 implementation of the cited algorithm on noise; delay: impulse trains against a reference delay line with floor(time x rate) frames, feedback gain applied once per round trip after the feedback effects (volume, hard / soft clip), sqrt mix law (1e-5 per frame); reverb: sample-by-sample against an f64 Freeverb network (8 combs + 4 all-passes per channel, tunings x rate/44100, spread 23, input gain 0.015) and a decaying tail for feedback < 1; compressor: unchanged below threshold, steady-state reduction (level - threshold)(1 - 1/ratio) dB (0.05 dB) and 63.2% of it after the attack time (2%); distortion: clamp(x d)/d and x d/(1+|x d|)/d, transparent for small signals; volume / panning control: decibel and equal-power laws. Non-trivial = parameters differ from the builder defaults (always, by generation) and the probe lies within two octaves of the corner; distinct = distinct decoded choices."
 	}
 	fn assumptions(&self) -> Vec<String> {
 		vec![
